@@ -259,11 +259,11 @@ func enumerateAlts(body string) groupAlts {
 // (reShape also records what directly follows the operator group and the value group)
 type reShape struct {
 	AfterOperator, AfterValue, ValueGroup *syntax.Regexp
-	AnchoredStart, AnchoredEnd bool
-	Groups                     int
-	OutsideWhitespaceOnly      bool
-	OutsideDetail              string
-	TopLevelGroups             []int // capture indices that are direct children of the top-level concat (mandatory spine)
+	AnchoredStart, AnchoredEnd            bool
+	Groups                                int
+	OutsideWhitespaceOnly                 bool
+	OutsideDetail                         string
+	TopLevelGroups                        []int // capture indices that are direct children of the top-level concat (mandatory spine)
 }
 
 func whitespaceOnly(re *syntax.Regexp) bool {
@@ -637,8 +637,31 @@ func propC14(r *Run, w *World) {
 				}
 				class[k] = eff
 			}
-			wantClass := map[string]string{"D": "store fv0 = 1", "w": "store fv1 = 1", "p": "store fv1 = 1",
-				"a": "store fv2 = 1", "A": "store fv2 = 1", "C": "store fv2 = 1", "F": "store fv2 = 1", "S": "store fv2 = 1"}
+			// the counters are identified by the local the closure binds, not by the position of
+			// the free variable (the closure may capture other things as well)
+			var binds []ssa.Value
+			for _, c := range callsNamedIn(validate, "(*flag.FlagSet).Visit") {
+				if mc, ok := c.Common().Args[1].(*ssa.MakeClosure); ok {
+					binds = mc.Bindings
+				}
+			}
+			counterOf := func(eff string) string {
+				var k int
+				if _, err := fmt.Sscanf(eff, "store fv%d = 1", &k); err == nil && eff == fmt.Sprintf("store fv%d = 1", k) && k < len(binds) {
+					if _, isAlloc := binds[k].(*ssa.Alloc); isAlloc {
+						return Term(binds[k])
+					}
+				}
+				return ""
+			}
+			cD, cW, cS := counterOf(class["D"]), counterOf(class["w"]), counterOf(class["S"])
+			distinct := cD != "" && cW != "" && cS != "" && cD != cW && cW != cS && cD != cS
+			wantClass := map[string]string{"D": class["D"], "w": class["w"], "p": class["w"],
+				"a": class["S"], "A": class["S"], "C": class["S"], "F": class["S"], "S": class["S"]}
+			if !distinct {
+				wantClass = map[string]string{"D": "store <delete counter> = 1", "w": "store <watch counter> = 1", "p": "store <watch counter> = 1",
+					"a": "store <syscall counter> = 1", "A": "store <syscall counter> = 1", "C": "store <syscall counter> = 1", "F": "store <syscall counter> = 1", "S": "store <syscall counter> = 1"}
+			}
 			var ns []string
 			for n := range names {
 				ns = append(ns, n)
@@ -655,25 +678,35 @@ func propC14(r *Run, w *World) {
 					r.Undecided("flag -"+n+" classification", visit.Pos(), "a registered flag that is not in the reviewed classification table")
 					continue
 				}
-				r.Check(class[n] == want, "flag -"+n+" classified", visit.Pos(), want, fmt.Sprintf("-%s is classified by [%s]; want [%s] (delete=fv0, watch=fv1, syscall=fv2): mixing it with another kind of flag would not be rejected", n, class[n], want))
+				r.Check(class[n] == want, "flag -"+n+" classified", visit.Pos(), want, fmt.Sprintf("-%s is classified by [%s]; want [%s] (the delete, watch and syscall counters are those set by -D, -w and -S): mixing it with another kind of flag would not be rejected", n, class[n], want))
 			}
 			for k := range class {
 				if names[k] == 0 {
 					r.Fail("classified flag -"+k+" is not registered", visit.Pos(), "")
 				}
 			}
-			// the closure binds deleteAll, fileWatch, syscall in that order
-			okBind := false
-			for _, c := range callsNamedIn(validate, "(*flag.FlagSet).Visit") {
-				if mc, ok := c.Common().Args[1].(*ssa.MakeClosure); ok && len(mc.Bindings) == 3 {
-					okBind = Term(mc.Bindings[0]) == "&local.deleteAll" && Term(mc.Bindings[1]) == "&local.fileWatch" && Term(mc.Bindings[2]) == "&local.syscall"
-					if !okBind {
-						// names are incidental; accept any three distinct locals
-						okBind = mc.Bindings[0] != mc.Bindings[1] && mc.Bindings[1] != mc.Bindings[2] && mc.Bindings[0] != mc.Bindings[2]
+			// the three counters are distinct locals of validate and all three are summed
+			okBind := distinct
+			if okBind {
+				for _, c := range []string{cD, cW, cS} {
+					n := 0
+					for _, b := range validate.Blocks {
+						for _, in := range b.Instrs {
+							if bo, ok := in.(*ssa.BinOp); ok && bo.Op == token.ADD {
+								for _, op := range []ssa.Value{bo.X, bo.Y} {
+									if u, ok := op.(*ssa.UnOp); ok && u.Op == token.MUL && Term(u.X) == c {
+										n++
+									}
+								}
+							}
+						}
+					}
+					if n == 0 {
+						okBind = false
 					}
 				}
 			}
-			r.Check(okBind, "Visit closure binds three class counters", validate.Pos(), "", "")
+			r.Check(okBind, "Visit closure binds three class counters", validate.Pos(), cD+" "+cW+" "+cS, "the delete, watch and syscall classes are not counted in three distinct locals that are all summed: "+cD+" "+cW+" "+cS)
 		}
 		// sum switch and -a/-A tests, by paths
 		ps, complete := Paths(validate, PathOpts{})
